@@ -244,6 +244,16 @@ fn run(ctx: &RunCtx) -> Report {
             let n_calls = rng.usize(1, 25);
             let targets: Vec<[u8; 20]> = (0..4).map(|_| rng.id()).collect();
             let mut ops = vec![];
+            // 1 run in 3: two put_mutable calls for the key back to back, the second with a cas at the first's
+            // seq and a seq around it (the supersede / reject paths of the local conflict rules)
+            if rng.chance(1, 3) {
+                let s1 = rng.range(8, 14) as i64;
+                ops.push(sim.put_mutable(node, dht::MutableItem::new(&key, b"first", s1, None), None));
+                sim.run_for(rng.range(0, 400) * MS);
+                let s2 = s1 + rng.range(0, 2) as i64 - 1;
+                ops.push(sim.put_mutable(node, dht::MutableItem::new(&key, b"second", s2, None), Some(s1)));
+                report.probe("put_mutable_pairs_with_cas_at_the_in_flight_seq", 1);
+            }
             for i in 0..n_calls {
                 let t = targets[rng.usize(0, 3)];
                 let op = match rng.below(9) {
@@ -253,7 +263,14 @@ fn run(ctx: &RunCtx) -> Report {
                     3 => sim.get_signed_peers(node, t),
                     4 => sim.find_node(node, t),
                     5 => sim.put_immutable(node, vec![i as u8; 10]),
-                    6 => sim.put_mutable(node, dht::MutableItem::new(&key, b"v", 10 + i as i64, None), None),
+                    // seqs collide and go back, values differ, cas values hit and miss the in-flight seq: whatever
+                    // the local conflict rules answer, no caller may stay parked
+                    6 => {
+                        let seq = if rng.chance(1, 2) { 10 + i as i64 } else { rng.range(8, 14) as i64 };
+                        let cas = if rng.chance(1, 2) { None } else { Some(rng.range(8, 14) as i64) };
+                        let v: &[u8] = if rng.chance(1, 2) { b"v" } else { b"w" };
+                        sim.put_mutable(node, dht::MutableItem::new(&key, v, seq, None), cas)
+                    }
                     7 => sim.announce_peer(node, t, Some(9)),
                     _ => sim.get_closest_nodes(node, t),
                 };
@@ -264,7 +281,7 @@ fn run(ctx: &RunCtx) -> Report {
                     sim.cancel_op(op);
                     report.probe("cancelled_calls", 1);
                 }
-                sim.run_for(rng.range(0, 1500) * MS);
+                sim.run_for(if rng.chance(1, 3) { 0 } else { rng.range(0, 1500) * MS });
             }
             // incoming traffic as well
             for i in 0..rng.usize(0, 20) {
@@ -314,6 +331,29 @@ fn run(ctx: &RunCtx) -> Report {
                     // repeat an earlier target (replaces its cache entry)
                     let op = sim.get_immutable(node, t);
                     sim.run_ops(&[op], sim.now() + 30 * SEC);
+                }
+            }
+            // half of these runs go *offline* with the cache full: every peer falls silent, the table empties
+            // within 20-25 minutes, and lookups that reach nobody (the node's own re-bootstrap attempts and a
+            // few API lookups) roll the full cache; the statistics must keep mirroring the cached lookups
+            if rng.chance(1, 2) {
+                for j in 0..rawnet.len() {
+                    rawnet.with_peer(j, |p| p.silent = true);
+                }
+                let end = sim.now() + rng.range(22, 30) * 60 * SEC;
+                let mut k = 0u64;
+                while sim.now() < end {
+                    sim.run_for(rng.range(20, 90) * SEC);
+                    let t = rng.id();
+                    let op = if k % 2 == 0 { sim.get_peers(node, t) } else { sim.find_node(node, t) };
+                    sim.run_ops(&[op], sim.now() + 60 * SEC);
+                    sim.want_snapshot(node);
+                    sim.run_for(600 * MS);
+                    k += 1;
+                }
+                report.probe("offline_with_full_cache_runs", 1);
+                if sim.snapshot(node).map(|s| s.routing_table.size == 0).unwrap_or(false) {
+                    report.probe("offline_runs_ending_with_an_empty_table", 1);
                 }
             }
             report.probe("cache_roll_runs", 1);
